@@ -4,6 +4,10 @@
 //!   rip    <hex>          feed the bytes (Latin-1 chars) to a fresh rip::Parser; search-stage observation
 //!   ripseq <hex> <hex>…   same, several chunks on ONE parser (state carried over); one observation per chunk
 //!   ripobs <hex>          stage-C observation of the BGI state after the stream (+ canvas hashes)
+//!   ripobs2 <hex>         ripobs + line style / thickness / canvas after three epilogue lines (extension: line family)
+//!   ripline <9 ints> <coords…>  Bgi::{line, rectangle, draw_poly, draw_poly_line} called directly (see fn ripline)
+//!   igsobs <hex>          stage-C observation of the IGS parser + DrawExecutor (extension: IGS tokenizer / pixel kernel)
+//!   igsdrain <hex> <n>    drain a pending loop for up to n further get_next_action calls
 //!   igs    <hex>          feed the bytes to a fresh igs::Parser + DrawExecutor, draining at most 64 loop steps per char
 //!
 //! The engine prints to stdout from a few places (`println!` in the default `Command::run`, IGS loop parameter
@@ -148,7 +152,61 @@ fn wm_code(m: icy_engine::rip::bgi::WriteMode) -> i64 {
     }
 }
 
+fn ls_code(m: icy_engine::rip::bgi::LineStyle) -> i64 {
+    use icy_engine::rip::bgi::LineStyle::*;
+    match m {
+        Solid => 0,
+        Dotted => 1,
+        Center => 2,
+        Dashed => 3,
+        User => 4,
+    }
+}
+
+/// extension (line family): `ripobs2 <hex>` = the ripobs observation + line style, thickness and the canvas after two
+/// epilogue lines (they make the line pattern and thickness visible)
+fn ripobs2(args: &[&str]) -> Obs {
+    ripobs_ext(args, true)
+}
+
 fn ripobs(args: &[&str]) -> Obs {
+    ripobs_ext(args, false)
+}
+
+/// `ripline <vx0> <vy0> <vx1> <vy1> <style> <user_pat> <thick> <wm> <kind> <coords…>`: the line primitives called directly with
+/// arbitrary i32 arguments on a fresh Bgi (kind 0: line x1 y1 x2 y2 ; 1: rectangle l t r b ; 2: draw_poly pts ; 3: draw_poly_line pts)
+fn ripline(args: &[&str]) -> Obs {
+    let _q = Quiet::new();
+    let a: Vec<i32> = args.iter().map(|s| s.parse::<i32>().unwrap_or(0)).collect();
+    if a.len() < 9 {
+        return Err("args".into());
+    }
+    let mut bgi = icy_engine::rip::bgi::Bgi::new(icon_dir());
+    bgi.set_viewport(a[0], a[1], a[2], a[3]);
+    bgi.set_line_style(icy_engine::rip::bgi::LineStyle::from(a[4] as u8));
+    if a[4] == 4 {
+        bgi.set_line_pattern(a[5]);
+    }
+    bgi.set_line_thickness(a[6]);
+    bgi.set_write_mode(icy_engine::rip::bgi::WriteMode::from(a[7] as u8));
+    bgi.set_color(11);
+    let c = &a[9..];
+    match a[8] {
+        0 => bgi.line(c[0], c[1], c[2], c[3]),
+        1 => bgi.rectangle(c[0], c[1], c[2], c[3]),
+        k => {
+            let pts: Vec<icy_engine::Position> = c.chunks(2).filter(|p| p.len() == 2).map(|p| icy_engine::Position::new(p[0], p[1])).collect();
+            if k == 2 {
+                bgi.draw_poly(&pts)
+            } else {
+                bgi.draw_poly_line(&pts)
+            }
+        }
+    }
+    Ok(vec![bgi.screen.len() as i64, hash(&bgi.screen), bgi.screen.iter().filter(|b| **b != 0).count() as i64])
+}
+
+fn ripobs_ext(args: &[&str], ext: bool) -> Obs {
     let _q = Quiet::new();
     let mut p = icy_engine::rip::Parser::new(Box::default(), icon_dir());
     let (mut buf, mut caret) = new_buf();
@@ -189,6 +247,14 @@ fn ripobs(args: &[&str]) -> Obs {
     bgi.bar(0, 0, 1295, 7);
     v.push(bgi.screen.len() as i64);
     v.push(hash(&bgi.screen));
+    if ext {
+        v.push(ls_code(bgi.get_line_style()));
+        v.push(bgi.get_line_thickness() as i64);
+        bgi.line(0, 12, 47, 12);
+        bgi.line(50, 3, 50, 30);
+        bgi.line(2, 2, 30, 21);
+        v.push(hash(&bgi.screen));
+    }
     Ok(v)
 }
 
@@ -222,6 +288,65 @@ fn igs(args: &[&str]) -> Obs {
         }
     }
     Ok(v)
+}
+
+/// extension (IGS tokenizer + pixel kernel): `igsobs <hex>` — the igs protocol (at most 64 get_next_action calls after every
+/// character, stopping at the first None), observation [err count; loop steps; width; height; picture length; picture hash]
+fn igsobs(args: &[&str]) -> Obs {
+    let _q = Quiet::new();
+    let exe: Arc<Mutex<Box<dyn icy_engine::igs::CommandExecutor>>> = Arc::new(Mutex::new(Box::<icy_engine::igs::DrawExecutor>::default()));
+    let mut p = icy_engine::igs::Parser::new(exe.clone());
+    let (mut buf, mut caret) = new_buf();
+    let mut err = 0i64;
+    let mut steps = 0i64;
+    for b in unhex(args[0]) {
+        if p.print_char(&mut buf, 0, &mut caret, char::from(b)).is_err() {
+            err += 1;
+        }
+        for _ in 0..64 {
+            if p.get_next_action(&mut buf, &mut caret, 0).is_none() {
+                break;
+            }
+            steps += 1;
+        }
+    }
+    let res = exe.lock().unwrap().get_resolution();
+    let mut v = vec![err, steps, res.width as i64, res.height as i64];
+    match p.get_picture_data() {
+        Some((_, px)) => v.extend([px.len() as i64, hash(&px)]),
+        None => v.extend([-1, -1]),
+    }
+    Ok(v)
+}
+
+/// `igsdrain <hex> <n>`: feed the stream (same protocol), then call get_next_action up to n more times;
+/// [steps during the stream; further steps; 1 if the loop ended (None) within n calls else 0]
+fn igsdrain(args: &[&str]) -> Obs {
+    let _q = Quiet::new();
+    let exe: Arc<Mutex<Box<dyn icy_engine::igs::CommandExecutor>>> = Arc::new(Mutex::new(Box::<icy_engine::igs::DrawExecutor>::default()));
+    let mut p = icy_engine::igs::Parser::new(exe.clone());
+    let (mut buf, mut caret) = new_buf();
+    let n: i64 = args.get(1).and_then(|s| s.parse().ok()).unwrap_or(1000);
+    let mut steps = 0i64;
+    for b in unhex(args[0]) {
+        let _ = p.print_char(&mut buf, 0, &mut caret, char::from(b));
+        for _ in 0..64 {
+            if p.get_next_action(&mut buf, &mut caret, 0).is_none() {
+                break;
+            }
+            steps += 1;
+        }
+    }
+    let mut more = 0i64;
+    let mut ended = 0i64;
+    for _ in 0..n {
+        if p.get_next_action(&mut buf, &mut caret, 0).is_none() {
+            ended = 1;
+            break;
+        }
+        more += 1;
+    }
+    Ok(vec![steps, more, ended])
 }
 
 /// attribution of a stall / abort inside a sequence: one chunk per command, progress on stderr (the driver reports the last
@@ -263,7 +388,11 @@ pub fn run(kind: &str, args: &[&str]) -> Option<Obs> {
     Some(match kind {
         "rip" | "ripseq" => rip(args),
         "ripobs" => ripobs(args),
+        "ripobs2" => ripobs2(args),
+        "ripline" => ripline(args),
         "igs" | "igsseq" => igs(args),
+        "igsobs" => igsobs(args),
+        "igsdrain" => igsdrain(args),
         "riptime" => timed("rip", args),
         "igstime" => timed("igs", args),
         _ => return None,
